@@ -136,16 +136,74 @@ def _js(v):
     return v
 
 
+_BASE_CTX = None
+
+
+def _baseline_context(key):
+    """Fingerprint recorded in baseline_obligations.json for the block contract `key` (None if
+    the baseline has none)."""
+    global _BASE_CTX
+    if _BASE_CTX is None:
+        _BASE_CTX = {}
+        try:
+            from ..common import VERIF
+            import json as _json
+            import os as _os
+            d = _json.load(open(_os.path.join(VERIF, 'baseline_obligations.json')))
+            for oid in d.get('discharged', []):
+                if '/context:' in oid and oid.startswith('pyvc:'):
+                    k, h = oid[len('pyvc:'):].rsplit('/context:', 1)
+                    _BASE_CTX[k] = h
+        except Exception:  # noqa: BLE001 - no baseline yet
+            pass
+    return _BASE_CTX.get(key)
+
+
+def _exits_before(fdef, first_stmt):
+    """Hash of the return statements of `fdef` that come before `first_stmt` in source order (not
+    those of nested functions), each with the chain of `if` tests it sits under."""
+    import hashlib
+    items = []
+
+    def walk(stmts, guards):
+        for s_ in stmts:
+            if s_ is first_stmt or getattr(s_, 'lineno', 0) >= first_stmt.lineno:
+                return True
+            if isinstance(s_, (ast.FunctionDef, ast.AsyncFunctionDef, ast.ClassDef)):
+                continue
+            if isinstance(s_, ast.Return):
+                items.append((tuple(guards), ast.dump(s_.value) if s_.value is not None else ''))
+            elif isinstance(s_, ast.If):
+                t = ast.dump(s_.test)
+                if walk(s_.body, guards + [t]) or walk(s_.orelse, guards + ['not ' + t]):
+                    return True
+            else:
+                for fld in ('body', 'orelse', 'finalbody', 'handlers'):
+                    sub = getattr(s_, fld, None)
+                    if isinstance(sub, list) and sub and isinstance(sub[0], ast.stmt):
+                        if walk(sub, guards):
+                            return True
+                    elif isinstance(sub, list):
+                        for h in sub:
+                            if isinstance(h, ast.ExceptHandler) and walk(h.body, guards):
+                                return True
+        return False
+    walk(fdef.body, [])
+    return hashlib.md5(repr(items).encode()).hexdigest()[:10]
+
+
 class Verifier:
     def __init__(self, registry, repo=REPO, timeout_s=20):
         self.reg = registry
         self.repo = repo
         self.timeout_s = timeout_s
+        self.repo_is_checked = True     # False while mutants are evaluated (source overridden)
 
     def verify(self, c, override_source=None):
         """Return list of Obligation for contract c."""
         t0 = time.time()
         base = f'pyvc:{getattr(c, "key", c.target)}'
+        self.repo_is_checked = override_source is None
         text, path = load_source(c, self.repo, override_source)
         if text is None:
             return [Obligation(f'{base}/extract', c.props[0], 'pyvc', LOST,
@@ -523,6 +581,17 @@ class Verifier:
                 break
         if not found:
             raise Unsupported(f'block {first}..{last} not found')
+        # A block contract says nothing about how control reaches the block.  Guard: the exits
+        # (return statements with the tests they sit under) that precede the block are
+        # fingerprinted; when they differ from the fingerprint recorded with the baseline the
+        # contract is *lost* (its claim was made for another context), never silently kept.
+        fp = _exits_before(fdef, found[0])
+        base_fp = _baseline_context(getattr(c, 'key', c.target))
+        if base_fp is not None and base_fp != fp and self.repo_is_checked:
+            raise Unsupported('the exits of the function before the block changed since the '
+                              'baseline: the block contract no longer speaks about this function')
+        o = ob(f'context:{fp}', 'exits (returns and their guards) preceding the block: fingerprint '
+               'recorded with the baseline')
         st = State()
         ex = Executor(self.reg, consts)
         ex.cur_class = c.cls
@@ -621,6 +690,14 @@ class Verifier:
                         break
         if node is None:
             raise Unsupported(f'assignment to {c.stmt} not found')
+        # same context guard as for block contracts: the exits preceding the statement
+        fp = _exits_before(fdef, node)
+        base_fp = _baseline_context(getattr(c, 'key', c.target))
+        if base_fp is not None and base_fp != fp and self.repo_is_checked:
+            raise Unsupported('the exits of the function before the statement changed since the '
+                              'baseline: the statement contract no longer speaks about this function')
+        ob(f'context:{fp}', 'exits (returns and their guards) preceding the statement: fingerprint '
+           'recorded with the baseline')
         st = State()
         ex = Executor(self.reg, consts)
         ex.cur_class = c.cls
